@@ -79,7 +79,10 @@ def gen_case(rng, root, gpg, case_no=None):
         keystore.pop(orphan.keyid, None)
         keystore[_b.keyid] = _b.pub
     if gpg:
-        mode = rng.choice(["master2", "master1", "master0", "subonly", "subonly_plus_master_elsewhere", "expired"])
+        modes = ["master2", "master1", "master0", "subonly", "subonly_plus_master_elsewhere", "expired"]
+        mode = rng.choice(modes)
+        if case_no is not None:
+            mode = modes[(case_no * 7 + case_no // 16) % len(modes)]       # (every way of authorising a gpg functionary, every run)
         desc["gpg_mode"] = mode
         if mode in ("master2", "subonly", "subonly_plus_master_elsewhere"):
             mname = "two_subs"
